@@ -126,3 +126,17 @@ Example C06_example :
   wf_go (PLinkADRReq 5 3 (true :: true :: repeat false 14) 6 1) = true /\
   enc (PLinkADRReq 5 3 (true :: true :: repeat false 14) 6 1) = Ok [0x53; 0x03; 0x00; 0x61].
 Proof. split; vm_compute; reflexivity. Qed.
+
+(* Decode direction of the channel-mask CFList: the three octets after the six masks are RFU and
+   do not reach the decoded value, which holds at most six masks (finding C06-2, fixed by e2c2b92). *)
+Theorem C06_cflist_masks_rfu_ignored : forall a b,
+  length a = 16%nat -> length b = 16%nat -> nth 15 a 0 = 1 -> nth 15 b 0 = 1 ->
+  firstn 12 a = firstn 12 b -> cflist_unmarshal a = cflist_unmarshal b.
+Proof. exact cflist_masks_rfu_ignored. Qed.
+Print Assumptions C06_cflist_masks_rfu_ignored.
+
+Theorem C06_cflist_masks_at_most_six : forall c l,
+  cflist_unmarshal c = Ok l -> nth 15 c 0 = 1 ->
+  exists ms, cf_payload l = CFPMasks ms /\ (length ms <= 6)%nat.
+Proof. exact cflist_masks_at_most_six. Qed.
+Print Assumptions C06_cflist_masks_at_most_six.
